@@ -848,7 +848,10 @@ class SVal:
             le = dict(env)
             for n in names:
                 le[n] = ('param', n)
-            return ('lambda', names, self.ev(e.body, le, pc + ((('in-lambda',), True),), record))
+            if not hasattr(self, '_lams'):
+                self._lams = {}
+            self._lams[id(e)] = e
+            return ('lambda', names, self.ev(e.body, le, pc + ((('in-lambda',), True),), record), id(e))
         if isinstance(e, (ast.ListComp, ast.SetComp, ast.GeneratorExp, ast.DictComp)):
             ce = dict(env)
             wrap = []
@@ -971,6 +974,22 @@ class SVal:
                                 break
                     except AnalysisError:
                         params = None
+        if isinstance(f, ast.Attribute) and f.attr == '_make' and isinstance(f.value, ast.Name) and len(args) == 1 and not e.keywords:
+            # NT._make(seq) is NT(*seq)
+            for mname in self.prog.modules:
+                if f.value.id in self.prog.modules[mname].consts:
+                    try:
+                        from .model import namedtuple_fields
+                        params = namedtuple_fields(self.prog, mname, f.value.id)
+                    except AnalysisError:
+                        params = None
+                    if params:
+                        callee = lib = 'namedtuple.' + f.value.id
+                        recv = None
+                        args = [('star', args[0])]
+                    break
+        if isinstance(f, ast.Name) and f.id in env and _has_lambda(env[f.id]):
+            callee, lib, quals, params = ('dyn', env[f.id]), None, (), None
         if not isinstance(f, (ast.Name, ast.Attribute)):
             # (c_ubyte * size)(...), handlers[k](...): the callee is a computed value
             callee, lib = ('dyn', self.ev(f, env, pc, record)), None
@@ -1006,14 +1025,24 @@ class SVal:
         if isinstance(callee, tuple) and callee[0] == 'dyn' and not e.keywords and all(t[0] != 'star' for _, t in bound):
             actual = [t for _, t in bound]
 
-            def apply(ft):
+            def apply(ft, apc):
                 if ft[0] == 'lambda' and len(ft[1]) == len(actual):
-                    return subst_params(ft[2], dict(zip(ft[1], actual)))
+                    node = getattr(self, '_lams', {}).get(ft[3]) if len(ft) > 3 else None
+                    if node is None:
+                        return subst_params(ft[2], dict(zip(ft[1], actual)))
+                    # the body is evaluated again where it is applied: the calls it makes are calls of this function, with these
+                    # arguments, under this path condition (the records made where the lambda was written are dropped)
+                    le = dict(env)
+                    le.update(zip(ft[1], actual))
+                    if record:
+                        inner = {id(c) for c in ast.walk(node.body) if isinstance(c, ast.Call)}
+                        self.calls = [c for c in self.calls if not (id(c.node) in inner and any(a[0] == ('in-lambda',) for a in c.pc))]
+                    return self.ev(node.body, le, apc, record)
                 if ft[0] == 'cond' and any(_has_lambda(x) for x in ft[2:]):
-                    return mk_cond(ft[1], apply(ft[2]), apply(ft[3]))
+                    return mk_cond(ft[1], apply(ft[2], apc + ((ft[1], True),)), apply(ft[3], apc + ((ft[1], False),)))
                 return ('call', ('dyn', ft), recv if recv is not None else NONE, tuple(bound), site)
             if _has_lambda(callee[1]):
-                term = apply(callee[1])
+                term = apply(callee[1], pc)
         # pure builtins on constants fold
         if callee == 'builtins.len' and len(bound) == 1 and bound[0][1][0] in ('tuple', 'list') and not any(
                 isinstance(x, tuple) and x and x[0] in ('when', 'each', 'star') for x in bound[0][1][1]):
@@ -1165,10 +1194,12 @@ def mk_index(b, i):
             if len(ent) == 2 and ent[0] == i and all(len(x) == 2 for x in b[1]):
                 return ent[1]
         # {True: a, False: b}[test]
-        if len(b[1]) == 2 and all(len(x) == 2 for x in b[1]) and {b[1][0][0], b[1][1][0]} == {TRUE, FALSE} \
-                and i[0] in ('cmp', 'not', 'and', 'or'):
+        if len(b[1]) == 2 and all(len(x) == 2 for x in b[1]) and {b[1][0][0], b[1][1][0]} == {TRUE, FALSE}:
             d = dict(b[1])
-            return mk_cond(i, d[TRUE], d[FALSE])
+            if i[0] in ('cmp', 'not', 'and', 'or'):
+                return mk_cond(i, d[TRUE], d[FALSE])
+            if i[0] == 'call' and i[1] == 'builtins.bool' and len(i[3]) == 1:
+                return mk_cond(i[3][0][1], d[TRUE], d[FALSE])
     return ('index', b, i)
 
 
